@@ -82,20 +82,41 @@ Theorem C19_public_data_inj : forall p q d,
 Proof. exact public_data_inj. Qed.
 Print Assumptions C19_public_data_inj.
 
-(* config.Config.WriteTo (threshold, IDSlice, 8-byte length + RID, each Public -- in ONE item): injective with NO
-   hypothesis on the sizes of the Paillier moduli, of the Pedersen values or of the RID.  wf_config = threshold in
-   uint32 range, keys strictly sorted (canonical form of the map), point coordinates in range, lengths below 2^64 *)
+(* config.Config.WriteTo (threshold, IDSlice, 8-byte length + RID, 8-byte length + chain key, each Public -- in ONE
+   item): injective with NO hypothesis on the sizes of the Paillier moduli, of the Pedersen values, of the RID or of the
+   chain key (nil and empty chain key are one value: length 0).  wf_config = threshold in uint32 range, keys strictly
+   sorted (canonical form of the map), point coordinates in range, lengths below 2^64 *)
 Theorem C19_config_data_inj : forall c1 c2 d,
   wf_config c1 = true -> wf_config c2 = true ->
   config_data c1 = Some d -> config_data c2 = Some d -> c1 = c2.
 Proof. exact config_data_inj. Qed.
 Print Assumptions C19_config_data_inj.
 
-(* regression: the encoders before the repairs (fix: length prefixes in config.go; fix: ErrTooLarge in pedersen.go) *)
+(* regression: Config.WriteTo before the chain key was written (fix: chain key in config.go): two well-formed configs
+   that differ ONLY in their chain key had the same bytes, hence the same transcript digest / session tag; the repaired
+   encoder separates them.  Everything else was already determined: *)
+Theorem C19_config_v1_chainkey_refuted :
+  exists c1 c2 : cmp_config,
+    c1 <> c2 /\ wf_config c1 = true /\ wf_config c2 = true /\
+    cc_threshold c1 = cc_threshold c2 /\ cc_rid c1 = cc_rid c2 /\ cc_public c1 = cc_public c2 /\
+    cc_chainkey c1 <> cc_chainkey c2 /\
+    item_ok_v1 (HCmpConfig (Some c1)) = true /\
+    enc_hval_v1 (HCmpConfig (Some c1)) = enc_hval_v1 (HCmpConfig (Some c2)) /\
+    enc_hval (HCmpConfig (Some c1)) <> None /\
+    enc_hval (HCmpConfig (Some c1)) <> enc_hval (HCmpConfig (Some c2)).
+Proof. exact config_v1_chainkey_refuted. Qed.
+Print Assumptions C19_config_v1_chainkey_refuted.
+Theorem C19_config_data_v1_inj : forall c1 c2 d,
+  wf_config c1 = true -> wf_config c2 = true -> cc_chainkey c1 = cc_chainkey c2 ->
+  config_data_v1 c1 = Some d -> config_data_v1 c2 = Some d -> c1 = c2.
+Proof. exact config_data_v1_inj. Qed.
+
+(* regression: the encoders before the framing repairs (fix: length prefixes in config.go; fix: ErrTooLarge in
+   pedersen.go); they did not write the chain key either *)
 
 (* pre-fix Config.WriteTo was injective only for one common byte length w of all Paillier moduli ... *)
 Theorem C19_config_data_v0_inj : forall w c1 c2 d,
-  wf_config_w w c1 = true -> wf_config_w w c2 = true ->
+  wf_config_w w c1 = true -> wf_config_w w c2 = true -> cc_chainkey c1 = cc_chainkey c2 ->
   config_data_v0 c1 = Some d -> config_data_v0 c2 = Some d -> c1 = c2.
 Proof. exact config_data_v0_inj. Qed.
 (* ... and collided otherwise: two different configs (same threshold, parties, 32-byte RID; all ranges respected) *)
